@@ -379,37 +379,51 @@ def check(report: Report, repo: Repo) -> None:
         report.add("R1-lint", cons, g.linted >= 1, f"[{sname}] graph.lint() runs on the result", g.linted, ">=1", nontrivial=False)
     report.floor("scenario graphs executed", n_sc, 4)
 
-    # ---- R3 unit_scale(): copy, reorder, re-initialise
-    opq = lambda f: isinstance(f, FuncV) and f.qualname in ("apply_transform", "_order_backends", "_unit_init_weights", "_zero_init_biases")
-    it3 = Interp(repo, opaque=opq)
+    # ---- R3 unit_scale(): copy, reorder, re-initialise (run for real on an abstract module)
+    it3 = Interp(repo)
     us = it3.get_global(US, "unit_scale")
-    mod = Obj("torch.nn.Module", term=T("param", ("module",)))
-    key = O("user_fn")
-    rep = {key: O("user_target")}
+
+    def child(cls_name: str, nm: str) -> Obj:
+        return Obj(cls_name, attrs={"weight": P(f"{nm}.w", None), "bias": P(f"{nm}.b", None), "_children": [], "__module__": "user_code.layers"}, term=None)
+
+    lin, emb, ln = child("torch.nn.Linear", "lin"), child("torch.nn.Embedding", "emb"), child("torch.nn.LayerNorm", "ln")
+    prev_backend = user_function("earlier_backend", ["gm", "example_inputs"])
+    prev_backend.attrs["__qualname__"] = "make_earlier_backend.<locals>.earlier_backend"
+    mod = Obj("torch.nn.Module", term=None)
+    mod.attrs.update({"forward": O("m.forward"), "_children": [("lin", lin), ("emb", emb), ("ln", ln)], "__module__": "user_code.models", "backends": [prev_backend]})
+    key = user_function("user_fn", ["x"])
+    rep = {key: user_function("user_target", ["x"])}
     cons = f"{US}::unit_scale"
     try:
         it3.events = []
+        before = {id(c): dict(c.attrs) for c in (lin, emb, ln)}
         res = it3.call_function(us, [mod, rep], {})
-        calls = {e["callee"].rsplit(".", 1)[1]: e for e in it3.events if e.kind == "call"}
-        at = calls.get("apply_transform")
-        if at is None:
-            report.add("R3-unit_scale", cons, False, "must go through apply_transform (deep copy + backend registration)")
-        else:
-            b = at["bound"]
-            be = b.get("backend")
-            okb = isinstance(be, FuncV) and be.qualname.endswith("inner_backend") and be.env is not None and be.env.lookup("replacement_map")[1] is rep
-            report.add("R3-unit_scale", f"{cons}::backend", okb and b.get("module") is mod, "apply_transform(module, unit_scaling_backend(replace), ...)", fmt(be), "unit_scaling_backend(replace)")
-            nr = b.get("non_recurse_functions")
-            report.add("R3-unit_scale", f"{cons}::non-recurse", isinstance(nr, list) and len(nr) == 1 and nr[0] is key, "user-replaced functions are kept as leaf calls (non_recurse_functions=list(replace.keys()))", fmt(nr), "[user_fn]")
-            rt = at["result"]
-            for helper in ("_unit_init_weights", "_zero_init_biases"):
-                e = calls.get(helper)
-                ok = e is not None and TM.term_of(list(e["bound"].values())[0]) == rt
-                report.add("R3-unit_scale", f"{cons}::{helper}", ok, f"{helper} runs on the module returned by apply_transform (the copy), never on the argument", fmt(list(e["bound"].values())[0]) if e else "not called", "the returned copy")
-            e = calls.get("_order_backends")
-            okr = e is not None and TM.term_of(list(e["bound"].values())[0]) == T("attr", (rt, "backends"))
-            report.add("R3-unit_scale", f"{cons}::_order_backends", okr, "the backend list of the result is re-ordered", fmt(list(e["bound"].values())[0]) if e else "not called", "result.backends")
-            report.add("R3-unit_scale", f"{cons}::return", TM.term_of(res) == rt, "returns the transformed copy", fmt(res), fmt(rt), nontrivial=False)
+        ok = isinstance(res, Obj) and res is not mod
+        report.add("R3-unit_scale", f"{cons}::returns-copy", ok, "unit_scale returns a transformed copy", fmt(res)[:80], "a new module")
+        if ok:
+            untouched = all(all(c.attrs.get(k) is v for k, v in before[id(c)].items()) for c in (lin, emb, ln)) and mod.attrs.get("backends") == [prev_backend] and "rerun_transform" not in mod.attrs
+            report.add("R3-unit_scale", f"{cons}::input-untouched", untouched, "the argument module (its weights, biases and backend list) is never re-initialised or modified", "modified" if not untouched else "unchanged", "unchanged")
+            ch = dict(res.attrs.get("_children", []))
+            for nm, want in (("lin", True), ("emb", True), ("ln", False)):
+                c = ch.get(nm)
+                w = TM.term_of(c.attrs.get("weight")) if isinstance(c, Obj) else None
+                b_ = TM.term_of(c.attrs.get("bias")) if isinstance(c, Obj) else None
+                cw, cb = T("copy", (T("param", (f"{nm}.w",)),)), T("copy", (T("param", (f"{nm}.b",)),))
+                if want:
+                    okw = w == T("div", (cw, T("method", ("std", cw, (), ()))))
+                    okb = b_ == T("sub", (cb, cb)) or (isinstance(b_, T) and b_.op == "method" and b_.args[0] == "zero_")
+                    report.add("R3-unit_scale", f"{cons}::reinit[{nm}]", okw and okb, f"the copy's {nm} weight is divided by its own std and its bias zeroed", f"w={fmt(w)} b={fmt(b_)}", "w/std(w), 0")
+                else:
+                    report.add("R3-unit_scale", f"{cons}::reinit[{nm}]", w == cw and b_ == cb, "modules other than Linear/Embedding keep their parameters", f"w={fmt(w)} b={fmt(b_)}", "unchanged", nontrivial=False)
+            bad = [e for e in it3.events if e.kind == "inplace" and any(not str(a).startswith("copy:") for a in (e.get("alias") or ()))]
+            report.add("R3-unit_scale", f"{cons}::inplace-on-copy", not bad, "every in-place re-initialisation acts on the copy's tensors", [e["op"] for e in bad], [])
+            ng = [e for e in it3.events if e.kind == "inplace"]
+            report.add("R3-unit_scale", f"{cons}::no_grad", bool(ng) and all(any("no_grad" in fmt(w_["ctx"]) for w_ in it3.events if w_.kind == "with") for _e in ng[:1]), "re-initialisation happens under torch.no_grad()", len(ng), ">=1", nontrivial=False)
+            bl = res.attrs.get("backends")
+            okb = isinstance(bl, list) and len(bl) == 2 and bl[0] is prev_backend and isinstance(bl[1], FuncV) and bl[1].env is not None and bl[1].env.lookup("replacement_map")[1] is rep
+            report.add("R3-unit_scale", f"{cons}::backend", okb, "the unit-scaling backend built from `replace` is appended to the copy's backend list", fmt(bl)[:120], "[earlier..., unit_scaling_backend(replace)]")
+            allow = [e for e in it3.events if e.kind == "call" and e["callee"] == "torch._dynamo.allow_in_graph"]
+            report.add("R3-unit_scale", f"{cons}::non-recurse", len(allow) == 1 and allow[0]["args"][0] is key, "user-replaced functions are kept as leaf calls (allow_in_graph on each key of `replace`)", len(allow), 1)
     except Unsupported as ex:
         report.add("R3-unit_scale", cons, None, f"outside fragment: {ex}")
     # re-initialisers
